@@ -39,15 +39,15 @@ var typeNames = map[string]typ{
 
 // canonical alias of the packages whose functions the translator knows
 var canonPkg = map[string]string{
-	"cosmossdk.io/math":                       "sdkmath",
-	"github.com/cosmos/cosmos-sdk/types":      "sdk",
-	"github.com/evmos/ethermint/types":        "ethermint",
-	"cosmossdk.io/errors":                     "errorsmod",
-	"errors":                                  "errors",
-	"fmt":                                     "fmt",
-	"time":                                    "time",
-	"math/big":                                "big",
-	"github.com/cosmos/cosmos-sdk/telemetry":  "telemetry",
+	"cosmossdk.io/math":                      "sdkmath",
+	"github.com/cosmos/cosmos-sdk/types":     "sdk",
+	"github.com/evmos/ethermint/types":       "ethermint",
+	"cosmossdk.io/errors":                    "errorsmod",
+	"errors":                                 "errors",
+	"fmt":                                    "fmt",
+	"time":                                   "time",
+	"math/big":                               "big",
+	"github.com/cosmos/cosmos-sdk/telemetry": "telemetry",
 	"github.com/cosmos/cosmos-sdk/types/errors": "sdkerrors",
 }
 
